@@ -3,8 +3,9 @@
 Same generator and runner as C02 (trace equality with the Lean model on HierarchicalMachine; the other five
 hierarchical classes through the sync/async-agnostic runner), every trace judged by the Lean monitor `C03.check`:
 P1 precedence / P2 liveness of the source / P3 innermost-first + completeness / P4 effect / P5 result.
-Thorough tier adds small-scope enumeration: trees with <= 5 states that contain a parallel state x two transitions
-for one event (global / local placements) x the four condition valuations."""
+Thorough tier adds small-scope enumeration: EVERY tree with <= 4 states x one transition (9 848 cases), and trees
+with <= 5 states that contain a parallel state x two transitions for one event (global / local placements) x the four
+condition valuations (every 67-th combination, the offset rotating with the seed)."""
 from .. import nested, nestedcheck
 from ..nestedcheck import NStream
 
@@ -21,12 +22,13 @@ def knobs_small():
     return nested.NKnobs(max_states=6, max_depth=3, max_branch=3, max_history=8, p_queued=0.1)
 
 
-def enum_single(idx, nchunks, limit):
+def enum_single(idx, nchunks, limit, seed):
     return nestedcheck.enum_single(4, idx, nchunks, limit)
 
 
-def enum_pairs(idx, nchunks, limit):
-    return nestedcheck.enum_pairs(5, idx, nchunks, limit, 23)
+def enum_pairs(idx, nchunks, limit, seed):
+    # every 67-th combination, the offset rotating with the seed
+    return nestedcheck.enum_pairs(5, idx, nchunks, limit, 67, seed % 67)
 
 
 class C03(nestedcheck.NestedCheck):
@@ -34,11 +36,11 @@ class C03(nestedcheck.NestedCheck):
     level = 'proof'
     monitor_kind = 'c03m'
     streams = (
-        NStream('random', knobs=knobs, quick=(16, 60), thorough=(64, 330)),
-        NStream('global-only', knobs=knobs_global, quick=(8, 60), thorough=(32, 300)),
-        NStream('random-small', knobs=knobs_small, quick=(8, 50), thorough=(32, 250)),
-        NStream('exhaustive-single<=4', enum=enum_single, thorough=(32, 3000), others=1, tiers=('thorough',)),
-        NStream('pairs<=5', enum=enum_pairs, thorough=(64, 2500), others=1, tiers=('thorough',)),
+        NStream('random', knobs=knobs, quick=(16, 60), thorough=(32, 200)),
+        NStream('global-only', knobs=knobs_global, quick=(8, 60), thorough=(16, 200)),
+        NStream('random-small', knobs=knobs_small, quick=(8, 50), thorough=(16, 150)),
+        NStream('exhaustive-single<=4', enum=enum_single, thorough=(32, 400), others=1, tiers=('thorough',)),
+        NStream('pairs<=5', enum=enum_pairs, thorough=(64, 260), others=1, tiers=('thorough',)),
     )
     theorems = ('TM.C03_P4_exits', 'TM.C03_P4_enters', 'TM.C03_P1_pass', 'TM.C03_P1', 'TM.C03_dispatch_global_only', 'TM.C03_P5_unhandled_flat', 'TM.C03_counterexample_redispatch', 'TM.C03_counterexample_result_overwritten', 'TM.C03_counterexample_stale_source', 'TM.C03_counterexample_reentered_source', 'TM.C03_counterexample_nested_lists', 'TM.C03_counterexample_local_effect', 'TM.C03_counterexample_suppressed_region', 'TM.C03_full_counterexample', 'TM.C02_exit_children_first', 'TM.C02_new_configuration')
     rule = ('a case = (state tree, placement of transitions, condition valuation, history); non-trivial iff at least '
